@@ -5,7 +5,7 @@ import struct
 
 from . import sym
 from .sym import show, const_value
-from .rules import (cname, cpath, ctrait, strip_view, is_ok, is_err, is_adt, decl_key, walk, contains, truth,
+from .rules import (fold_trivial_call, cname, cpath, ctrait, strip_view, is_ok, is_err, is_adt, decl_key, walk, contains, truth,
                     OPSET, norm_check)
 from .corpus import int_min, int_max
 
@@ -425,6 +425,7 @@ def check_arbitrary_int(rep, g, equality):
                 want_hi = (chk['bound'], 0)
         def canon(x):
             t0, k = x
+            t0 = fold_trivial_call(ex, t0)   # `lim()` on one side and its compile-time value on the other are the same bound
             if t0[0] == 'const' and t0[2] is not None:
                 return (sym.mk_const(t0[1], const_value(t0) + k), 0)   # fold the offset; the name of a constant is irrelevant
             return (t0, k)
